@@ -164,7 +164,8 @@ def c09(run):
     run.build_harness()
     rt_negative(run, "hdr", "D6", max_hdr=1)
     rt_negative(run, "hdr", "D15", max_hdr=1)
-    rt_family(run, "hdr_2x2x1", "hdr", 2, 2, 1 if quick else 2, invs=("DispatchIff", "TreeSorted", "AcceptIff"))
+    rt_family(run, "hdr_2x2x1", "hdr", 2, 2, 1 if quick else 2, invs=("DispatchIff", "TreeSorted", "AcceptIff"), sample=48,
+              max_cases=7000 if quick else 300000)
     rt_random(run, "rand_hdr", "hdr", 400 if quick else 30000)
     return run.finish(rule=RT_RULE, extra_assumptions=RT_ASSUME)
 
@@ -174,7 +175,8 @@ def c10(run):
     run.build_harness()
     rt_negative(run, "hdr", "D7", max_hdr=1)
     rt_negative(run, "hdr", "D16", max_hdr=1)
-    rt_family(run, "hdr_2x2x1", "hdr", 2, 2, 1 if quick else 2, invs=("DispatchIff", "TreeSorted", "AcceptIff"))
+    rt_family(run, "hdr_2x2x1", "hdr", 2, 2, 1 if quick else 2, invs=("DispatchIff", "TreeSorted", "AcceptIff"), sample=48,
+              max_cases=7000 if quick else 300000)
     if not quick:
         rt_family(run, "hdr_3x1x1", "hdr", 3, 1, 1, invs=("DispatchIff", "TreeSorted", "AcceptIff"))
     rt_random(run, "rand_hdr", "hdr", 300 if quick else 20000)
